@@ -15,8 +15,12 @@ T = {
          "pair lemma + function contracts against T.87 spec functions, SMT; bounded Golomb/run mode"),
  'C04': ("JPEG 2000 reversible path: the reversible colour transform pair is proved inverse (scalar and array forms, quantified loop invariants) and the tile-grid functions are proved; T1/MQ/T2 and the 3700-line encoder driver are outside the SMT subset and are covered by bounded round trips over the configuration lattice.",
          "contracts on RCT and geometry, SMT; bounded codec round trips"),
- 'C05': ("JPEG 2000 lossless syntaxes: no contract within reach yet covers the layer allocator; the check runs the bounded parameter-lattice round trips through the registered codecs (labelled bounded).",
-         "bounded parameter-lattice round trips (deductive core not reached)"),
+ 'C05': ("JPEG 2000 lossless syntaxes: finalizeBlock / finalizeRDCodeBlockLayers / appendRDLosslessLayer are proved, for an ARBITRARY rate allocation and any number of layers, to give the final lossless layer all coding passes and a byte range of the complete bitstream that ends exactly at the last pass (nothing of a code-block is dropped), with every index in bounds; parameter mapping, allocator monotonicity and the codec round trip over the parameter lattice are bounded stand-ins.",
+         "contracts with quantified pre-conditions on the real layer-finalisation functions, SMT; bounded parameter lattice"),
+ 'C06': ("HTJ2K lossless: the Scup locator (last 12 bits of the cleanup segment) writer and parser are proved inverse for every legal suffix length and the parser is proved panic-free for every byte string; the HT cleanup block coder, MEL/VLC tables and the codec round trip (sizes, block sizes, levels, the 14 third-party fixtures) are bounded stand-ins.",
+         "pair lemma + contracts on the Scup locator, SMT; bounded HT block coder and fixtures"),
+ 'C11': ("JPEG DCT codecs: ScaleQuantTable is proved equal to the IJG quality-scaling rule with entries in 1..255 for every quality and base table (quantified loop invariant); the per-sample error bound against the stream's own DQT tables, accepted-by-decoder and geometry are bounded stand-ins (every quality, every partial block shape).",
+         "contract on the quality->table function, SMT; bounded error-bound sweep"),
  'C07': ("JPEG-LS near-lossless: the property statement itself is the post-condition of the real encoder kernel encodeRegularSample, proved for ALL NEAR (symbolic, no case split), all precisions, contexts and neighbourhoods: |reconstruction - source| <= NEAR and 0 <= reconstruction <= MAXVAL, with quantize / ModuloRange / ComputeReconstructedSample proved against T.87 A.4.4-A.4.5; the Golomb layer is an assumed channel (bounded-backed); run-mode samples and whole images are bounded stand-ins.",
          "post-condition of the real kernel under symbolic NEAR, SMT; bounded Golomb/run mode"),
  'C08': ("No decoder panics: a zero-annotation safety sweep generates every index/slice/nil/division/shift/make/panic obligation of every decoder-side function under an empty pre-condition (all parameters and the heap symbolic); the obligations discharged on the pinned tree are the committed baseline and must stay discharged; functions under contract (RLE, Huffman category coder, JPEG-LS helpers) are fully proved; bounded truncation/corruption sweeps of every decoder stand in for the rest.",
